@@ -472,7 +472,7 @@ func otherPrin(t *rapid.T, label string, avoid ...int) int {
 // PrincipalDeviations lists the deviation kinds of C01.
 var PrincipalDeviations = []string{"rewire-aud", "rewire-iss", "subject-other", "subject-undef", "last-not-root",
 	"foreign-root", "foreign-root-suffix", "subject-other-run", "root-in-audience", "swap", "duplicate", "truncate-root", "truncate-leaf", "missing", "loader-error",
-	"empty", "wrong-invoker", "inv-subject-other", "reverse", "rotate", "near-twin-aud", "near-twin-sub", "near-twin-inv-sub", "foreign-proof", "foreign-proof"}
+	"empty", "wrong-invoker", "inv-subject-other", "reverse", "rotate", "near-twin-aud", "near-twin-sub", "near-twin-inv-sub", "foreign-proof", "foreign-proof", "root-ctor-foreign-issuer", "root-ctor-foreign-issuer", "root-ctor"}
 
 // ApplyPrincipalDeviation mutates c in place with one labelled deviation at a drawn position.
 func ApplyPrincipalDeviation(t *rapid.T, c *Case, kind string) {
@@ -503,6 +503,24 @@ func ApplyPrincipalDeviation(t *rapid.T, c *Case, kind string) {
 			return
 		}
 		c.Links[pos].Sub = -1
+	case "root-ctor-foreign-issuer", "root-ctor":
+		// the last delegation (or, for "root-ctor", the one at the drawn position) is built with delegation.Root and an
+		// option list that names the invocation's subject (one option list shared between New and Root calls): Root
+		// makes the ISSUER the subject. With a foreign issuer the delegation is about that stranger - and stays in
+		// memory, as built (a decoder recomputes nothing)
+		if n == 0 {
+			return
+		}
+		at := n - 1
+		if kind == "root-ctor" {
+			at = pos
+		} else {
+			c.Links[at].Iss = otherPrin(t, "dev_p", c.Links[at].Sub)
+		}
+		c.Links[at].ViaRoot = true
+		c.Links[at].Decoded = false
+		c.ReaderLoader = false
+		label = fmt.Sprintf("%s@%d/%d", kind, at, n)
 	case "last-not-root":
 		if n == 0 {
 			return
